@@ -383,7 +383,9 @@ class ExtendedNonlocalGame:
         bob_povms = defaultdict(cvxpy.Variable)
         for y_ques in range(num_inputs_bob):
             for b_ans in range(num_outputs_bob):
-                bob_povms[y_ques, b_ans] = cvxpy.Variable((dim, dim), hermitian=True)
+                # Bob measures a system whose dimension is his number of outputs (see the starting measurements in
+                # `quantum_value_lower_bound` and the operators `rho` of `__optimize_alice`), not the referee's dimension.
+                bob_povms[y_ques, b_ans] = cvxpy.Variable((num_outputs_bob, num_outputs_bob), hermitian=True)
         win = 0
         for x_ques in range(num_inputs_alice):
             for y_ques in range(num_inputs_bob):
